@@ -82,8 +82,52 @@ def shift_per_element(c, s, sample_shape):
     def s_of(e):
         return s.elem(tuple(0 if (not is_sym(s.shape[i]) and s.shape[i] == 1) else e[i] for i in range(r)))
     import itertools
+    if any(is_sym(d) for d in s.shape):
+        return s_of, None, (lambda m: s.elem(m))       # symbolic extent: no enumeration of the elements
     space = list(itertools.product(*[range(int(d)) for d in s.shape]))
     return s_of, space, (lambda m: s.elem(m))
+
+
+def _any_extent(S):
+    return len(S) == 1 and is_sym(S[0])
+
+
+def _shift_any_extent(c, g, s):
+    """Per-element shift over ONE sample axis of symbolic extent: s_at(j) for an index term j, the statement's two
+    reductions over the elements (largest front crop, most negative back crop) as extremum symbols shared with the
+    summary of the code's element loop, and the two "all elements" conditions."""
+    ctx = c.ctx
+    S = g.data.shape[1]
+    if isinstance(s, SArr):
+        if s.ndim != 1:
+            from pyvc.ctx import Unsupported
+            raise Unsupported("symbolic sample extent with a shift array of rank other than 1")
+        one = (not is_sym(s.shape[0])) and s.shape[0] == 1
+        if not one:
+            c.raise_if(V.ne(s.shape[0], S), "ValueError", "shift does not broadcast against the sample shape")
+        s_at = (lambda j: s.elem((0,))) if one else (lambda j: s.elem((j,)))
+    else:
+        s_at = lambda j: s
+    cached = getattr(ctx, "_shift_folds", None)
+    if cached is None:
+        g_start = lambda j: V.Ite(V.lt(s_at(j), 0), 0, V.ceil_real(ctx, s_at(j)))
+        g_stop = lambda j: V.Ite(V.lt(s_at(j), 0), V.floor_real(ctx, s_at(j)), 0)
+        start = ctx.fold_extreme("max", S, g_start, tag="front-crop")
+        stop = ctx.fold_extreme("min", S, g_stop, tag="back-crop")
+        cached = ctx._shift_folds = (g_start, g_stop, start, stop)
+    return s_at, cached
+
+
+def time_shift_loop_folds(c, z, shift, crop=False):
+    """The reductions the element loop of time_shift must compute (statement: the front / back edge samples to
+    remove are those of the largest positive / most negative shift)."""
+    g = c.view(z)
+    S = g.data.shape[1:]
+    if not _any_extent(S):
+        return []
+    s = shift_as_samples(c, g, shift)
+    s_at, (g_start, g_stop, start, stop) = _shift_any_extent(c, g, s)
+    return [("max", 0, g_start, start), ("min", 0, g_stop, stop)]
 
 
 def spec_time_shift(c, z, shift, crop=False):
@@ -96,12 +140,18 @@ def spec_time_shift(c, z, shift, crop=False):
     if isinstance(s, SArr) and s.ndim >= g.data.ndim:
         raise PyExc("ValueError", "shift has too many dimensions")
     S = g.data.shape[1:]
-    s_of, space, s_at = shift_per_element(c, s, S)
-    allzero = V.And(*[V.eq(s_at(m), 0) for m in space])
-    if c.branch(allzero, "all shifts are zero"):
-        return z            # a delay by 0 samples is the identity and zero-fills nothing (ceil(0) = 0)
     tiny = Fraction(1, 10 ** 8)
-    alltiny = V.And(*[V.And(V.le(s_at(m), tiny), V.le(V.neg(tiny), s_at(m))) for m in space])
+    if _any_extent(S):
+        s_at_j, (g_start, g_stop, f_start, f_stop) = _shift_any_extent(c, g, s)
+        s_of = lambda e: s_at_j(e[0])
+        per_elem = SArr((S[0],), lambda ix: s_at_j(ix[0]), "float64")
+        allzero = c.interp.stubs.forall_elems(ctx, per_elem, lambda v: V.eq(v, 0), "shift0")
+        alltiny = c.interp.stubs.forall_elems(ctx, per_elem, lambda v: V.And(V.le(v, tiny), V.le(V.neg(tiny), v)), "shifttiny")
+        space = None
+    else:
+        s_of, space, s_at = shift_per_element(c, s, S)
+        allzero = V.And(*[V.eq(s_at(m), 0) for m in space])
+        alltiny = V.And(*[V.And(V.le(s_at(m), tiny), V.le(V.neg(tiny), s_at(m))) for m in space])
     if c.branch(alltiny, "all shifts within 1e-8 of zero (not all exactly zero)"):
         # the statement has no tolerance: a shift of 1e-9 samples still zero-fills ceil(s) = 1 sample
         c.tag("shift-below-1e-8")
@@ -133,11 +183,14 @@ def spec_time_shift(c, z, shift, crop=False):
     attrs = g.attrs()
     if not c.branch(c.interp.truthy_sym(crop, ctx), "crop"):
         return construct(c, g.cls, data, attrs)
-    start, stop = 0, 0
-    for m in space:
-        sm = s_at(m)
-        start = V.vmax(start, V.Ite(V.le(0, sm), V.ceil_real(ctx, sm), 0))
-        stop = V.vmin(stop, V.Ite(V.lt(sm, 0), V.floor_real(ctx, sm), 0))
+    if space is None:
+        start, stop = f_start, f_stop
+    else:
+        start, stop = 0, 0
+        for m in space:
+            sm = s_at(m)
+            start = V.vmax(start, V.Ite(V.le(0, sm), V.ceil_real(ctx, sm), 0))
+            stop = V.vmin(stop, V.Ite(V.lt(sm, 0), V.floor_real(ctx, sm), 0))
     # statement: "the crop=False result with exactly those edge samples removed" -- the kept samples are
     # start <= k < N + stop, none at all when the removed edges cover the signal (|s| >= N, mixed signs)
     sl = SSlice(V.simp(start), V.simp(V.vmax(0, V.add(N, stop))), None)
@@ -198,10 +251,27 @@ def inst_time_shift():
                         sh = Qty(sym_array("sh_t", sb[1], "float64", nm=nm, scale=3), TIME_DIM, interp.stubs.units["s"])
                     return (z, sh), {"crop": crop}
                 out.append(Instance(f"{label},{cls},{dt or 'double'},{be},crop={int(crop)}", build))
+    # any extent of one sample axis (symbolic): the element loop of the code is summarised, not unrolled
+    for kind in ("scalar", "array-full", "array-one"):
+        for crop in (False, True):
+            def build(interp, ctx, nm, kind=kind, crop=crop):
+                z = mk_signal(interp, ctx, "z", "Signal", extra_rank=1, min_len=1, nm=nm)
+                S1 = z.ghost["data"].shape[1]
+                if kind == "scalar":
+                    sh = nm.real("sh")
+                elif kind == "array-full":
+                    sh = sym_array("sh", (S1,), "float64", nm=nm, scale=3)
+                else:
+                    sh = sym_array("sh", (1,), "float64", nm=nm, scale=3)
+                return (z, sh), {"crop": crop}
+            inst = Instance(f"{kind},S=(any,),Signal,double,numpy,crop={int(crop)}", build)
+            inst.generalisation = True
+            out.append(inst)
     return out
 
 
 _ts = Contract("pulsarbat.transforms.transforms.time_shift", spec_time_shift, inst_time_shift(), props={"C03": None, "C01": TIME_PARTS, "C09": None})
+_ts.loop_folds = time_shift_loop_folds
 CONTRACTS.append(_ts)
 
 
@@ -279,6 +349,20 @@ def inst_freq_shift():
                     sh = nm.real("df", 1)
                 return (z, sh), {}
             out.append(Instance(f"{label},{cls},{dt},{be}", build))
+    # any channel count (one sample axis of symbolic extent): the element loop of the code is summarised
+    for kind in ("scalar", "array-full", "array-one"):
+        def build(interp, ctx, nm, kind=kind):
+            z = mk_signal(interp, ctx, "z", "BasebandSignal", dtype="complex128", min_len=1, align="bottom", nm=nm)
+            U = interp.stubs.units
+            S1 = z.ghost["data"].shape[1]
+            if kind == "scalar":
+                sh = Qty(nm.real("df", 137), FREQ_DIM, U["Hz"])
+            else:
+                sh = Qty(sym_array("df", (S1,) if kind == "array-full" else (1,), "float64", nm=nm, scale=400), FREQ_DIM, U["Hz"])
+            return (z, sh), {}
+        inst = Instance(f"{kind},S=(any,),BasebandSignal,complex128,numpy", build)
+        inst.generalisation = True
+        out.append(inst)
     return out
 
 
@@ -364,6 +448,12 @@ def inst_snippet():
                         t = STime(V.add(z.ghost["t0"].sec if has_t0 else 0, V.div(ctx, nm.real("t_s"), sr)))
                     return (z, t, n), {}
                 out.append(Instance(f"{cls},t0={int(has_t0)},t={tform}", build))
+    # a duration in ms against a rate in kHz: the product of the display values is not the sample count
+    def build(interp, ctx, nm):
+        z = mk_signal(interp, ctx, "z", "Signal", has_t0=True, min_len=1, nm=nm, sr_unit="kHz")
+        U = interp.stubs.units
+        return (z, Qty(V.div(ctx, nm.real("t_s"), z.ghost["sr"].val), TIME_DIM, U["us"]), nm.int("n")), {}
+    out.append(Instance("Signal,t0=1,t=quantity-us,rate-kHz", build))
     return out
 
 
